@@ -102,6 +102,16 @@ func c09RunCmd(timeout time.Duration, dir string, env []string, name string, arg
 	return -1, string(out) + "\n" + err.Error()
 }
 
+// c09BuildArgs: the race build; VERIF_MODFILE (set by ./check when the repository under test
+// is not /repo) selects an alternative go.mod whose replace directive points there.
+func c09BuildArgs(bin string) []string {
+	args := []string{"build", "-race", "-tags", "verif"}
+	if mf := os.Getenv("VERIF_MODFILE"); mf != "" {
+		args = append(args, "-modfile="+mf)
+	}
+	return append(args, "-o", bin, "./racejob")
+}
+
 // c09RaceRun builds racejob (unless VERIF_RACEJOB names one) and runs control + job sets.
 func c09RaceRun(seed int64, t string, digest string) *C09RaceResult {
 	res := &C09RaceResult{WantDigest: digest}
@@ -117,7 +127,7 @@ func c09RaceRun(seed int64, t string, digest string) *C09RaceResult {
 		start := time.Now()
 		code, out := c09RunCmd(15*time.Minute, c09HarnessDir(),
 			c09Env("CGO_ENABLED=1", "GOFLAGS=-mod=mod", "GOPROXY=off", "GOSUMDB=off", "GOTOOLCHAIN=local"),
-			"go", "build", "-race", "-tags", "verif", "-o", bin, "./racejob")
+			"go", c09BuildArgs(bin)...)
 		res.BuildS = time.Since(start).Seconds()
 		if code != 0 {
 			res.BuildErr = fmt.Sprintf("go build -race failed (exit %d): %s", code, out)
